@@ -564,6 +564,10 @@ func findParamLen(s string, segment *routeSegment) int {
 
 	if len(segment.ComparePart) == 1 {
 		if constPosition := strings.IndexByte(s, segment.ComparePart[0]); constPosition != -1 {
+			// same rule as below: a parameter that is not greedy never spans a slash
+			if !segment.IsGreedy && strings.IndexByte(s[:constPosition], slashDelimiter) != -1 {
+				return 0
+			}
 			return constPosition
 		}
 	} else if constPosition := strings.Index(s, segment.ComparePart); constPosition != -1 {
